@@ -688,4 +688,40 @@ theorem addSameSign_view (s : St) (negate : Bool) (us vs : Src) (hs : s.ok = tru
     · simp [htl]
 
 
+/-- mpf_neg (r, u) and mpf_neg (r, r) (mpf/neg.c) -/
+theorem mpf_neg_spec (s : St) (x : Src) (hs : s.ok = true) (hr : DestWF s.r) (hx : OpndWF (s.obj x)) :
+    Fr s (mpf_neg s x) ∧ (mpf_neg s x).r.view = Mpf.neg s.r.prec (decide (x = .r)) (s.obj x).view := by
+  obtain ⟨hrb, hra⟩ := hr
+  obtain ⟨hxb, hxa⟩ := hx
+  unfold mpf_neg Mpf.neg
+  by_cases hx : x = .r
+  · subst hx
+    simp only [if_true, decide_true]
+    exact ⟨⟨hs, rfl, rfl, rfl, rfl, hrb⟩, by simp [FObj.view, St.setSE, St.obj]⟩
+  · simp only [hx, if_false, decide_false, Bool.false_eq_true]
+    have hxl : (s.obj x).size.natAbs ≤ (s.obj x).blk.limbs.length := by rw [hxb]; exact hxa
+    rw [Int.natAbs_neg]
+    generalize hasz : (s.obj x).size.natAbs = asize at hxl hxa
+    generalize hp1 : s.r.prec + 1 = p1 at hra
+    have hsel := sel_top (s.obj x).blk.limbs asize p1 hxl
+    generalize hoff : (if asize > p1 then asize - p1 else 0) = off at hsel
+    generalize hn : (if asize > p1 then p1 else asize) = n at hsel
+    have hb1 : off + n ≤ (s.obj x).blk.alloc := by subst hoff hn; split <;> omega
+    have hb2 : n ≤ s.r.blk.alloc := by subst hn; split <;> omega
+    generalize hsz : (if -(s.obj x).size ≥ 0 then (n : Int) else -(n : Int)) = sz
+    have hszn : sz.natAbs = n := by subst hsz; split <;> omega
+    have C := copyToR_spec (s.setSE sz (s.obj x).exp) x off n hs hrb (by rw [obj_setSE_blk]; exact hxb)
+      (by rw [obj_setSE_blk]; exact hb1) hb2
+    rw [obj_setSE_blk] at C
+    obtain ⟨c1, c2, c3, c4, c5, c6, c7, c8, c9⟩ := C
+    refine ⟨⟨c1, c2, c3, c4, c7, c8⟩, ?_⟩
+    have hlen : (Mpf.top p1 (List.take asize (s.obj x).blk.limbs)).length = n := by
+      have := hxb; unfold BlkWF at this
+      rw [← hsel, List.length_take, List.length_drop]; omega
+    have g1 : (s.setSE sz (s.obj x).exp).r.size = sz := rfl
+    have g2 : (s.setSE sz (s.obj x).exp).r.exp = (s.obj x).exp := rfl
+    have g3 : (s.setSE sz (s.obj x).exp).r.prec = s.r.prec := rfl
+    simp only [FObj.view, c4, c5, c6, g1, g2, g3, hszn, c9, hsel, hasz, hlen]
+    rw [← hsz]
+
 end Mpir.AllocSafe7
